@@ -591,7 +591,7 @@ func (e *exec) Run() error {
 	if c.OnRunEnter != nil {
 		c.OnRunEnter(c, s.Name, att, deps)
 	}
-	immediate := s.isHandler && c.HandlerImmediate
+	immediate := s.isHandler && c.HandlerImmediate && !s.Never
 	var auto time.Duration = -1
 	if c.AutoRelease != nil {
 		auto = c.AutoRelease(s.Name, att)
